@@ -18,6 +18,8 @@ import (
 // stateKey names one receiver database: layout "rich" ignores Set.
 type stateKey struct {
 	Fl, Layout, Set, Stored, Shares string
+	EonKey                          string // "main" | "other": key material of the newest successful DKG of every set
+	Prev                            bool   // every set with a successful DKG also has an OLDER successful one with the opposite key material (restarted key generation)
 }
 
 func keyFor(c Case) stateKey {
@@ -25,6 +27,11 @@ func keyFor(c Case) stateKey {
 	if k.Fl == "" {
 		k.Fl = "core"
 	}
+	k.EonKey = c.Recv.EonKey
+	if k.EonKey == "" {
+		k.EonKey = "main"
+	}
+	k.Prev = c.Hist == "stale"
 	if k.Layout == "solo" {
 		k.Set = c.M.Set
 		if k.Set == "Overflow" {
@@ -93,9 +100,17 @@ func (st *States) build(ctx context.Context, k stateKey) (*fakepg.DB, error) {
 	}
 	defer pool.Close()
 	q := kprdb.New(pool)
-	pure, err := shdb.EncodePureDKGResult(w.PureResult(ReceiverIdx))
+	pureMain, err := shdb.EncodePureDKGResult(w.PureResult(ReceiverIdx))
 	if err != nil {
 		return nil, err
+	}
+	pureOther, err := shdb.EncodePureDKGResult(w.PureResultOther(ReceiverIdx))
+	if err != nil {
+		return nil, err
+	}
+	pure, purePrev := pureMain, pureOther
+	if k.EonKey == "other" {
+		pure, purePrev = pureOther, pureMain
 	}
 	configs := configsOf(k)
 	for _, idx := range configs {
@@ -122,17 +137,21 @@ func (st *States) build(ctx context.Context, k stateKey) (*fakepg.DB, error) {
 			return q.InsertDKGResult(ctx, kprdb.InsertDKGResultParams{Eon: e, Success: false, Error: sql.NullString{String: "dkg failed", Valid: true}})
 		}
 		var steps []error
+		if k.Prev && (idx == 1 || idx == 2 || idx == 6) {
+			// the superseded key generation of the set: an older eon with its own successful result
+			steps = append(steps, eon(idx), q.InsertDKGResult(ctx, kprdb.InsertDKGResultParams{Eon: idx, Success: true, PureResult: purePrev}))
+		}
 		switch idx {
 		case 1, 2: // MemberOk, NotMember
-			steps = []error{eon(10 + idx), ok(10 + idx)}
+			steps = append(steps, eon(10+idx), ok(10+idx))
 		case 3: // NoResult
-			steps = []error{eon(13)}
+			steps = append(steps, eon(13))
 		case 4: // Failed
-			steps = []error{eon(14), failed(14)}
+			steps = append(steps, eon(14), failed(14))
 		case 5: // RestartNoResult
-			steps = []error{eon(15), failed(15), eon(25)}
+			steps = append(steps, eon(15), failed(15), eon(25))
 		case 6: // RestartOk
-			steps = []error{eon(16), failed(16), eon(26), ok(26)}
+			steps = append(steps, eon(16), failed(16), eon(26), ok(26))
 		}
 		for _, e := range steps {
 			if e != nil {
